@@ -52,7 +52,7 @@ CLASSES = (
     'sanitizer-reinserted-stmt',      # statements rewritten by the sanitiser (OPEN ... NEWUNIT=) keep their source indentation
     'string-doubled-quote',           # 'shouldn''t' inside PRINT: value with / without the doubled quote
 )
-PREDICATE_ONLY = ('interface-body-named-like-module-procedure', 'fypp-line-markers', 'sanitizer-reinserted-stmt', 'string-doubled-quote')
+PREDICATE_ONLY = ('select-empty-case', 'interface-body-named-like-module-procedure', 'fypp-line-markers', 'sanitizer-reinserted-stmt', 'string-doubled-quote')
 
 
 def _loki():
@@ -298,14 +298,14 @@ def fir_flags(prog):
             elif h == 'nop':
                 if str(s[1]) == 'pragma' and '(' in str(s[2]):
                     flags.add('pragma-args-respaced')
-    for u in fir.prog_units(prog):
-        for d in u[3]:
+    for _name, _args, decls, body in fir.prog_units(prog):
+        for d in decls:
             _n, _t, _i, dims, pm = fir.decl_fields(d)
             for lo, hi in dims:
                 ex(lo); ex(hi)
             if pm is not None:
                 ex(pm)
-        stmts(u[4])
+        stmts(body)
     return flags
 
 
@@ -572,6 +572,19 @@ class ScalarGen:
         op = r.choice(['add', 'sub', 'mul', 'div', 'add', 'sub', 'mul'])
         return fir.BIN(op, self.ex(ty, d - 1), self.ex(ty if r.random() < 0.8 or ty == 'int' else 'int', d - 1))
 
+    def selector(self):
+        """ASSOCIATE selectors the FP frontend accepts (see notes/FIR.md L2): variables, + and * of variables and literals"""
+        r = self.rng
+        ty = r.choice(['int', 'real'])
+        pool = self.ints if ty == 'int' else self.reals
+
+        def go(d):
+            if d <= 0 or r.random() < 0.4:
+                return fir.V(r.choice(pool)) if r.random() < 0.7 else self.lit(ty)
+            return fir.BIN(r.choice(['add', 'mul']), go(d - 1), go(d - 1))
+        e = go(2)
+        return e if fir._h(e) != 'bin' or r.random() < 0.7 else fir.V(r.choice(pool + self.logs))
+
     def stmts(self, n, depth, inloop=False):
         r = self.rng
         out = []
@@ -606,13 +619,13 @@ class ScalarGen:
                             used.add(v)
                             vals.append(v)
                     if vals:
-                        cases.append([vals, self.stmts(r.randrange(1, 3), depth - 1, inloop)])
+                        body = self.stmts(r.randrange(1, 3), depth - 1, inloop)
+                        cases.append([vals, body or [[A('nop'), A('comment'), 'empty']]])
                 if cases:
                     out.append([A('select'), self.ex('int', 2), cases,
                                 self.stmts(r.randrange(0, 2), depth - 1, inloop)])
             elif k < 0.77:
-                binds = [[A('z%d' % (j + 1)), self.ex(r.choice(['int', 'real', 'logical']), 2)]
-                         for j in range(r.randrange(1, 3))]
+                binds = [[A('z%d' % (j + 1)), self.selector()] for j in range(r.randrange(1, 3))]
                 out.append([A('assoc'), binds, self.stmts(r.randrange(0, 3), depth - 1, inloop)])
             elif k < 0.84:
                 out.append([A('callsub'), A(r.choice(['sub1', 'sub2']))] +
@@ -760,8 +773,8 @@ class C02(Prop):
 
     # ------------------------------------------------------------------ generation
     def gen(self, rng, tier):
-        n_lines = {'quick': 40, 'thorough': 400, 'search': 150}[tier]
-        n_fir = {'quick': 14, 'thorough': 220, 'search': 60}[tier]
+        n_lines = {'quick': 30, 'thorough': 400, 'search': 150}[tier]
+        n_fir = {'quick': 10, 'thorough': 220, 'search': 60}[tier]
         for k in range(n_lines):
             g = ScalarGen(rng, hazards=(k % 3 != 0))
             p = g.program()
@@ -778,7 +791,7 @@ class C02(Prop):
             yield Case([A('c02'), A('fir'), A(STYLES[k % 2]), p], stream='fir')
         files = repo_files()
         if tier == 'quick':
-            files = [f for j, f in enumerate(files) if j % 4 == rng.randrange(4)] if False else files[rng.randrange(3)::3]
+            files = files[rng.randrange(5)::5]
         for f in files:
             yield Case([A('c02'), A('file'), f], stream='file')
         if tier != 'quick':
@@ -786,7 +799,7 @@ class C02(Prop):
                 yield Case([A('c02'), A('src'), A('fortran'), s], stream='snippet')
         else:
             sn = repo_snippets()
-            for s in sn[rng.randrange(25)::25]:
+            for s in sn[rng.randrange(40)::40]:
                 yield Case([A('c02'), A('src'), A('fortran'), s], stream='snippet')
 
     # ------------------------------------------------------------------ real code (correspondence)
